@@ -158,6 +158,9 @@ def run(ctx):
     for mcs, flow in (((1, False), (2, True)) if ctx.quick else ((1, False), (2, True), (3, False))):
       c02.enumerate_single(ctx, execute, extra={'max_cache_size': mcs, 'flow': flow},
                            workloads=c02.DUP_WORKLOADS[:1] if ctx.quick else None)
+    for mcs, flow in ((2, False), (3, True)):
+      c02.enumerate_prefilled(ctx, execute, extra={'opcodes': True, 'max_cache_size': mcs, 'flow': flow},
+                              strategies=('sorted', 'max') if ctx.quick else None, workloads=c02.PREFILLED[:1] if ctx.quick else None)
   n_c, n_s = (260, 110) if ctx.quick else (900, 350)
   for i, s in enumerate(cachesim.STRATEGIES):
     run_given(ctx, bounded(c02.concurrent_cases(s)), execute, n_c, salt=30 + i)
